@@ -1,4 +1,5 @@
 import Decstr.Proofs.StreamBuf
+import Decstr.Proofs.Numeral
 /-!
 # Proofs.Stream — property C14: streaming (`parseFmt`) versus string (`parseStr`) parsing
 
@@ -19,17 +20,6 @@ set_option linter.unusedSimpArgs false
 
 /-! ## what the encoder reads -/
 
-def numeralOfFinite (f : FiniteParser.ParsedFinite) : Numeral :=
-  let text := f.buf.ascii
-  let dv (r : Range) := digitVals (slice text r)
-  let ex := f.exp.map fun e => (e.neg, dv e.range)
-  match f.sig.point with
-  | some pt => .finite f.sig.neg (dv ⟨f.sig.range.start, pt.start⟩) (dv ⟨pt.stop, f.sig.range.stop⟩) ex
-  | none => .finite f.sig.neg (dv f.sig.range) [] ex
-def numeralOf : Parsed → Numeral
-  | .finite f => numeralOfFinite f
-  | .infinity neg => .inf neg
-  | .nan n => .nan n.neg n.signaling (n.payload.map fun s => digitVals (slice n.buf.ascii s.range))
 /-- outcome of a parse up to what the encoder looks at -/
 def outcome (r : Except ParseErr Parsed) : Except ParseErr Numeral := r.map numeralOf
 
